@@ -64,15 +64,17 @@ def is_null_valued(v):
 
 _DATE = re.compile(r'^(\d{4})-(\d{2})-(\d{2})'
                    r'(?:[ T](\d{2}):(\d{2}):(\d{2})(?:\.(\d+))?'
-                   r'([-+]\d{2}:\d{2})?)?$')
+                   r'([-+]\d{2}:\d{2}|Z)?)?$')
 
 
 def parse_instant(s):
     """datetime for the ISO-like spellings whose meaning nobody disputes
     (date; date + HH:MM:SS; the same with exactly six fractional digits;
     each optionally followed by a UTC offset +HH:MM / -HH:MM, which is how
-    Python - and therefore tdda - writes a timezone-aware datetime: the
-    result is then timezone-aware); UNSPEC for any other number of fractional
+    Python - and therefore tdda - writes a timezone-aware datetime, or by
+    the ISO 8601 designator Z = +00:00: the result is then timezone-aware.
+    The sign applies to the WHOLE offset: -03:30 is 3 h 30 min west of UTC);
+    UNSPEC for any other number of fractional
     digits or other spellings (the format document does not define date
     syntax); None if s is not a string."""
     if not isinstance(s, str):
@@ -84,9 +86,11 @@ def parse_instant(s):
     if frac is not None and len(frac) != 6:
         return UNSPEC
     tz = None
-    if off is not None:
+    if off == 'Z':
+        tz = datetime.timezone.utc
+    elif off is not None:
         minutes = int(off[1:3]) * 60 + int(off[4:6])
-        if minutes >= 24 * 60:
+        if minutes >= 24 * 60 or int(off[4:6]) >= 60:
             return UNSPEC
         tz = datetime.timezone(datetime.timedelta(
             minutes=-minutes if off[0] == '-' else minutes))
